@@ -36,7 +36,7 @@ ASSUMPTIONS = [
     'the model has been solved at least once (an unsolved precipitation model holds eqAspectRatio = None and cannot be loaded back)',
     'phase names of one model are distinct',
     'finite array contents; array dtype (finalTime may be saved as int64) is not modelled, values are compared as doubles',
-    'underlying thermodynamics compared with removeCache=True (pycalphad results depend on the cache state otherwise)',
+    'the untrained getter must return the very object the thermodynamics call of the same name returned (checked by identity); an independent second thermodynamics call (removeCache=True) is compared with rtol 1e-9 only, pycalphad evaluations being reproducible to about 1e-12',
 ]
 TRUSTED = ['np.savez_compressed / np.load / dict(NpzFile) semantics as modelled in KawinV.SaveLoad (compared on every run)',
            'json.dump / json.load number printing and parsing', 'SciPy RBFInterpolator']
@@ -234,6 +234,7 @@ def extract_tables(new_model, names_of, getter, setter):
     for _attempt in range(40):
         data = fresh_data(keys)
         m2 = new_model()
+        pre = _fill(m2, names_of(m2), setter, mk)      # marker data in the fresh model too: what does fromDict leave alone / reset?
         rec = RecDict(data)
         try:
             m2.fromDict(rec)
@@ -266,7 +267,16 @@ def extract_tables(new_model, names_of, getter, setter):
                 reads.append((k, '?keeps-default:' + s, o))      # a missing key leaves something else than None
             else:
                 reads.append((k, s, o))
-    return writes, reads
+    read_slots = {r[1] for r in reads}
+    resets = []
+    for sl in names2:
+        if sl in read_slots:
+            continue
+        if got[sl] is None:
+            resets.append(sl)                       # fromDict sets it to None whatever the data
+        elif not _safe_same(got[sl], pre[sl]):
+            resets.append('?changed:' + sl)         # changed to something that is neither data nor None
+    return writes, reads, resets
 
 
 def _safe_same(a, b):
@@ -290,6 +300,20 @@ def templates(entries, phases):
         if per[ph] != first:
             raise RuntimeError('per-phase lines differ between phases: %r vs %r' % (first, per[ph]))
     return glob, first
+
+
+def slot_templates(slots, phases):
+    glob, per = [], {ph: [] for ph in phases}
+    for sl in slots:
+        for ph in phases:
+            if sl.endswith('@' + ph):
+                per[ph].append(sl[:-(len(ph) + 1)]); break
+        else:
+            glob.append(sl)
+    for ph in phases[1:]:
+        if per[ph] != per[phases[0]]:
+            raise RuntimeError('per-phase reset slots differ between phases')
+    return glob, per[phases[0]]
 
 
 def expand(glob, per, phases):
@@ -379,18 +403,20 @@ def build_tables():
         from kawin.thermo import BinarySurrogate, MulticomponentSurrogate
         attrs = _attributes()
         rec_ph = ['PHA', 'PHB']
-        pw, pr = extract_tables(lambda: _new_precip(rec_ph, ['E1', 'E2']), precip_slot_names, precip_get, precip_set)
+        pw, pr, pz = extract_tables(lambda: _new_precip(rec_ph, ['E1', 'E2']), precip_slot_names, precip_get, precip_set)
         gW, phW = templates(pw, rec_ph)
         gR, phR = templates(pr, rec_ph)
+        gZ, phZ = slot_templates(pz, rec_ph)
         # the templates must also describe a model with other names and another number of phases / elements
         ph3 = ['X1', 'Y22', 'Z333']
-        pw3, pr3 = extract_tables(lambda: _new_precip(ph3, ['E1']), precip_slot_names, precip_get, precip_set)
-        if sorted(pw3) != sorted(expand(gW, phW, ph3)) or sorted(pr3) != sorted(expand(gR, phR, ph3)):
+        pw3, pr3, pz3 = extract_tables(lambda: _new_precip(ph3, ['E1']), precip_slot_names, precip_get, precip_set)
+        if (sorted(pw3) != sorted(expand(gW, phW, ph3)) or sorted(pr3) != sorted(expand(gR, phR, ph3))
+                or sorted(pz3) != sorted(gZ + [z + '@' + ph for ph in ph3 for z in phZ])):
             raise RuntimeError('toDict/fromDict lines of a 3-phase model are not the per-phase templates of the 2-phase model')
-        dw, dr = extract_tables(lambda: _new_diff_plain(True), lambda m: list(DIFF_SLOTS), diff_get, diff_set)
+        dw, dr, dz = extract_tables(lambda: _new_diff_plain(True), lambda m: list(DIFF_SLOTS), diff_get, diff_set)
         bt, bp = fallthrough_table(BinarySurrogate, 2)
         mt, mp = fallthrough_table(MulticomponentSurrogate, 3)
-    return dict(attrs=attrs, rec_ph=rec_ph, pw=pw, pr=pr, gW=gW, phW=phW, gR=gR, phR=phR, dw=dw, dr=dr,
+    return dict(attrs=attrs, rec_ph=rec_ph, pw=pw, pr=pr, gW=gW, phW=phW, gR=gR, phR=phR, gZ=gZ, phZ=phZ, dw=dw, dr=dr, dz=dz,
                 bg=surrogate_getters(BinarySurrogate), mg=surrogate_getters(MulticomponentSurrogate), bt=bt, bp=bp, mt=mt, mp=mp)
 
 
@@ -406,11 +432,14 @@ def render_tables(t):
              lean_entries('precipPhaseW', 'PrecipitateModel.toDict: lines executed per phase (key = prefix + phase name, slot = name@phase)', t['phW']),
              lean_entries('precipGlobalR', 'PrecipitateModel.fromDict: lines not depending on the phase', t['gR']),
              lean_entries('precipPhaseR', 'PrecipitateModel.fromDict: lines executed per phase', t['phR']),
+             lean_strs('precipGlobalReset', 'PrecipitateModel.fromDict: global slots set to None whatever the data', t['gZ']),
+             lean_strs('precipPhaseReset', 'PrecipitateModel.fromDict: per-phase slots set to None whatever the data (the PopulationBalanceModel objects are replaced)', t['phZ']),
              lean_strs('precipRecordedPhases', 'phase names of the model the lines were recorded on', t['rec_ph']),
              lean_entries('precipRecordedW', 'toDict lines exactly as recorded on that model', t['pw']),
              lean_entries('precipRecordedR', 'fromDict lines exactly as recorded on that model', t['pr']),
              lean_entries('diffW', 'DiffusionModel.toDict', t['dw']),
              lean_entries('diffR', 'DiffusionModel.fromDict', t['dr']),
+             lean_strs('diffReset', 'DiffusionModel.fromDict: slots set to None whatever the data', t['dz']),
              lean_strs('binaryGetters', 'public getters of BinarySurrogate', t['bg']),
              lean_pairs('binaryFallthrough', 'untrained BinarySurrogate: (getter, thermodynamics method called)', t['bt']),
              lean_pairs('binaryPassThrough', 'untrained BinarySurrogate: (getter, exactly one call, arguments and result handed through unchanged)', t['bp'], b),
@@ -433,3 +462,868 @@ def tables():
 def regenerate(ctx):
     changed = vlib.write_if_changed(GEN_FILE, render_tables(tables()))
     return [os.path.relpath(GEN_FILE, vlib.VERIF)] if changed else []
+
+
+# ============================================================================ protocol helpers
+def enc_val(v):
+    if v is None:
+        return 'N'
+    a = np.asarray(v, dtype=float)
+    return 'A %d %s %s' % (a.ndim, ' '.join(str(d) for d in a.shape), enc_list(a.ravel()))
+
+
+def enc_slots(d):
+    return '%d %s' % (len(d), ' '.join('%s %s' % (k, enc_val(v)) for k, v in d.items()))
+
+
+def parse_rt(line):
+    t = Toks(line)
+    if not t.ok:
+        return {'bad': t.err}
+    assert t.tok() == 'K'
+    keys = [t.tok() for _ in range(t.nat())]
+    kind = t.tok()
+    if kind == 'E':
+        what = t.tok()
+        return {'keys': keys, 'err': (what, t.tok()) if what == 'keyerror' else (what,)}
+    slots = {}
+    for _ in range(t.nat()):
+        name = t.tok(); tag = t.tok()
+        if tag == 'N':
+            slots[name] = None
+        else:
+            shape = tuple(t.nat() for _ in range(t.nat()))
+            slots[name] = np.array(t.flts(), dtype=float).reshape(shape)
+    return {'keys': keys, 'err': None, 'slots': slots}
+
+
+def show_nest(x):
+    if isinstance(x, list):
+        return '[ ' + ' '.join(show_nest(y) for y in x) + ' ]' if x else '[  ]'
+    return 'nan' if (isinstance(x, float) and math.isnan(x)) else f2b(x)
+
+
+# ============================================================================ running real models
+class StepCap:
+    """ends a solve call normally (stop flag from postProcess) after `limit` accepted steps"""
+    def __init__(self, model):
+        self.model, self.count, self.limit = model, 0, None
+        orig = type(model).postProcess
+        cap = self
+
+        def pp(time, x):
+            x2, stop = orig(model, time, x)
+            cap.count += 1
+            return x2, (stop or (cap.limit is not None and cap.count >= cap.limit))
+        model.postProcess = pp
+
+    def solve(self, simTime, limit, solver='euler'):
+        vlib.use_repo()
+        from kawin.solver import SolverType
+        self.count, self.limit = 0, limit
+        with _quiet(), warnings.catch_warnings():
+            warnings.simplefilter('ignore')
+            self.model.solve(simTime, solverType=SolverType.EXPLICITEULER if solver == 'euler' else SolverType.RK4, verbose=False)
+        return self.count
+
+
+def build_precip(cfg):
+    import kwnruns
+    vlib.use_repo()
+    if cfg['system'] == 'AlZr':
+        m = kwnruns.build_binary(x0=cfg['x0'], T=cfg['T'], gamma=cfg['gamma'], bins=cfg['bins'], minBins=cfg['minBins'],
+                                 maxBins=cfg['maxBins'], adaptive=cfg['adaptive'], record=False)
+    elif cfg['system'] == 'NiCrAl':
+        m = kwnruns.build_ternary(x0=cfg['x0'], T=cfg['T'], bins=cfg['bins'], minBins=cfg['minBins'], maxBins=cfg['maxBins'])
+    else:
+        m = _build_almgsi(cfg)
+    if cfg['record']:
+        m.setPSDrecording(True)
+    return m
+
+
+_ALMGSI = {}
+
+
+def _build_almgsi(cfg):
+    """the 5-precipitate Al-Mg-Si configuration of test_precipitationSavingLoading"""
+    from kawin.tests.datasets import ALMGSI_DB
+    from kawin.thermo import MulticomponentThermodynamics
+    from kawin.precipitation import PrecipitateModel, PrecipitateParameters, MatrixParameters, TemperatureParameters
+    phases = ['FCC_A1', 'MGSI_B_P', 'MG5SI6_B_DP', 'B_PRIME_L', 'U1_PHASE', 'U2_PHASE']
+    if 'th' not in _ALMGSI:
+        th = MulticomponentThermodynamics(ALMGSI_DB, ['AL', 'MG', 'SI'], phases, drivingForceMethod='tangent')
+        th.setDFSamplingDensity(2000); th.setEQSamplingDensity(500)
+        _ALMGSI['th'] = th
+    matrix = MatrixParameters(['MG', 'SI'])
+    matrix.initComposition = list(cfg['x0'])
+    matrix.volume.setVolume(1e-5, 'VM', 4)
+    gamma = {'MGSI_B_P': 0.18, 'MG5SI6_B_DP': 0.084, 'B_PRIME_L': 0.18, 'U1_PHASE': 0.18, 'U2_PHASE': 0.18}
+    precs = []
+    for p in phases[1:]:
+        pp = PrecipitateParameters(p); pp.gamma = gamma[p]; pp.volume.setVolume(1e-5, 'VM', 4); precs.append(pp)
+    return PrecipitateModel(thermodynamics=_ALMGSI['th'], matrixParameters=matrix, precipitateParameters=precs,
+                            temperatureParameters=TemperatureParameters(cfg['T']))
+
+
+def gen_precip_cfg(rng, system='AlZr'):
+    if system == 'AlZr':
+        bins = rng.choice([60, 75, 75, 90])
+        record = rng.random() < 0.5
+        # PSD recording with adaptive=False is not generated: PopulationBalanceModel.record() pads to `bins` columns although the
+        # arrays were allocated with maxBins columns and raises ValueError in the first step (the TODO in its docstring) - no run to save
+        return dict(system='AlZr', x0=round(8e-3 * rng.uniform(0.94, 1.1), 6), T=round(760.0 + rng.uniform(-8, 10), 2),
+                    gamma=0.1, bins=bins, minBins=bins - 25, maxBins=bins + 25, adaptive=True if record else rng.random() < 0.6,
+                    record=record, steps=[rng.randint(150, 210), rng.randint(110, 180)],
+                    solver='euler' if rng.random() < 0.75 else 'rk4', strength=True)
+    if system == 'NiCrAl':
+        return dict(system='NiCrAl', x0=(round(0.098 * rng.uniform(0.97, 1.03), 5), 0.083), T=1073.0, bins=75, minBins=50, maxBins=100,
+                    record=rng.random() < 0.5, steps=[rng.randint(100, 160), rng.randint(80, 140)], solver='euler', strength=False,
+                    adaptive=True, gamma=0.023)
+    return dict(system='AlMgSi', x0=(0.0072, 0.0057), T=175 + 273.15, record=rng.random() < 0.5,
+                steps=[rng.randint(12, 25), rng.randint(8, 20)], solver='euler', strength=False, bins=150, minBins=100, maxBins=200,
+                adaptive=True, gamma=None)
+
+
+class StubTherm:
+    """duck-typed thermodynamics for SinglePhaseModel (what test_diffusion's models need: clearCache, getInterdiffusivity)"""
+    def __init__(self, E, seed, D0):
+        r = np.random.default_rng(seed)
+        self.E, self.D0 = E, D0
+        self.base = np.eye(E) * r.uniform(0.5, 1.0, E) + (r.uniform(-0.1, 0.1, (E, E)) * (1 - np.eye(E)) if E > 1 else 0)
+
+    def clearCache(self):
+        pass
+
+    def getInterdiffusivity(self, x, T, phase=None):
+        x = np.atleast_1d(np.asarray(x, dtype=float))
+        D = self.D0 * self.base * (1 + 0.4 * x[0])
+        return float(D[0, 0]) if self.E == 1 else np.array(D)
+
+
+ELS = ['NI', 'CR', 'AL', 'CO', 'FE']
+REC_OPTIONS = ['on', 'on', 'off', 'off', 'switched-off', 'switched-on', 'removed']
+
+
+def gen_diff_cfg(rng):
+    E = rng.choice([1, 1, 2, 3])
+    N = rng.randint(5, 40)
+    L = 10 ** rng.uniform(-4.5, -2.5)
+    ncalls = rng.randint(1, 3)
+    return dict(kind='stub', E=E, N=N, L=L, els=rng.sample(ELS, E + 1), rec=rng.choice(REC_OPTIONS), tseed=rng.getrandbits(30),
+                D0=10 ** rng.uniform(-15, -12), steps=[rng.randint(3, 40) for _ in range(ncalls)],
+                prof=[[round(rng.uniform(0.02, 0.9 / E), 4), round(rng.uniform(0.02, 0.9 / E), 4), rng.choice(['step', 'linear'])] for _ in range(E)],
+                solver=rng.choice(['euler', 'euler', 'rk4']), T=round(rng.uniform(900, 1400), 1))
+
+
+_REALTH = {}
+
+
+def _real_diff_therm(n):
+    vlib.use_repo()
+    if n not in _REALTH:
+        from kawin.tests.datasets import NICRAL_TDB
+        from kawin.thermo import GeneralThermodynamics
+        _REALTH[n] = GeneralThermodynamics(NICRAL_TDB, ['NI', 'CR'] if n == 2 else ['NI', 'CR', 'AL'], ['FCC_A1', 'BCC_A2'])
+    return _REALTH[n]
+
+
+def build_diff(cfg):
+    vlib.use_repo()
+    from kawin.diffusion import SinglePhaseModel, HomogenizationModel
+    from kawin.diffusion.DiffusionParameters import CompositionProfile, TemperatureParameters
+    cp = CompositionProfile()
+    for e, (a, b, kind) in enumerate(cfg['prof']):
+        el = cfg['els'][e + 1]
+        if kind == 'step':
+            cp.addStepCompositionStep(el, a, b, 0.0)
+        else:
+            cp.addLinearCompositionStep(el, a, b)
+    zlim = [-cfg['L'] / 2, cfg['L'] / 2]
+    record = cfg['rec'] in ('on', 'switched-off', 'removed')
+    tp = TemperatureParameters(cfg['T'])
+    if cfg['kind'] == 'stub':
+        th = StubTherm(cfg['E'], cfg['tseed'], cfg['D0'])
+        return SinglePhaseModel(zlim, cfg['N'], cfg['els'], ['ALPHA'], thermodynamics=th, compositionProfile=cp,
+                                temperatureParameters=tp, record=record)
+    th = _real_diff_therm(len(cfg['els']))
+    if cfg['kind'] == 'real-single':
+        return SinglePhaseModel(zlim, cfg['N'], cfg['els'], ['FCC_A1'], thermodynamics=th, compositionProfile=cp,
+                                temperatureParameters=tp, record=record)
+    return HomogenizationModel(zlim, cfg['N'], cfg['els'], ['FCC_A1', 'BCC_A2'], thermodynamics=th, compositionProfile=cp,
+                               temperatureParameters=tp, record=record)
+
+
+def diff_dt_estimate(m, cfg):
+    if cfg['kind'] == 'stub':
+        return 0.4 * float(m.dz) ** 2 / (cfg['D0'] * 1.4)
+    return cfg['dt_est']
+
+
+# ============================================================================ save -> load -> compare (oracle + model)
+def slots_of(model, names, getter):
+    return {s: (None if getter(model, s) is None else np.array(getter(model, s), dtype=float, copy=True)) for s in names}
+
+
+def key_template(k, phases):
+    for ph in sorted(phases, key=len, reverse=True):
+        if k.endswith(ph):
+            return k[:-len(ph)] + '<phase>'
+    return k
+
+
+def slot_template(s):
+    return s.split('@')[0]
+
+
+def roundtrip_check(res, ctx, tmp, kind, model, fresh_model, desc, lines, pending, tag):
+    """save `model`, load into `fresh_model`; direct oracle on every slot; queues the Lean-model comparison"""
+    names = precip_slot_names(model) if kind == 'P' else list(DIFF_SLOTS)
+    getter = precip_get if kind == 'P' else diff_get
+    phases = [str(p) for p in model.phases] if kind == 'P' else []
+    s = slots_of(model, names, getter)
+    s0 = slots_of(fresh_model, names, getter)
+    fn = os.path.join(tmp, '%s_%d' % (tag, len(os.listdir(tmp))))
+    model.save(fn)
+    with np.load(fn + '.npz', allow_pickle=True) as z:
+        file_keys = sorted(z.files)
+    outcome = None
+    try:
+        fresh_model.load(fn)
+    except KeyError as e:
+        outcome = ('keyerror', str(e.args[0]))
+    except ValueError as e:
+        outcome = ('objarray',) if 'Object arrays' in str(e) else ('ValueError', str(e)[:80])
+    except Exception as e:                      # any other failure to load
+        outcome = (type(e).__name__, str(e)[:80])
+    mname = 'precipitation' if kind == 'P' else 'diffusion'
+    s1 = None
+    if outcome is not None:
+        none_slots = [n for n in names if s[n] is None and slot_template(n) not in PSDREC_SLOTS]
+        if outcome[0] == 'objarray':
+            res.violate('%s-file-with-None-%s-does-not-load' % (mname, '+'.join(sorted({slot_template(n) for n in none_slots})) or 'entry'),
+                        'model.save() succeeded but load() raises "Object arrays cannot be loaded": slots %s are None and were stored as object arrays' % none_slots,
+                        desc, observed='ValueError: Object arrays cannot be loaded when allow_pickle=False', required='the saved file loads whatever the recording options')
+        elif outcome[0] == 'keyerror':
+            res.violate('%s-load-KeyError-%s' % (mname, key_template(outcome[1], phases)),
+                        'fromDict reads key %r which the saved file does not contain (file keys: %s)' % (outcome[1], file_keys), desc,
+                        observed='KeyError %s' % outcome[1], required='every key read is written')
+        else:
+            res.violate('%s-load-raises-%s' % (mname, outcome[0]), 'load() raised %s: %s' % outcome, desc)
+    else:
+        s1 = slots_of(fresh_model, names, getter)
+        psd_lost = []
+        for n in names:
+            if same(s[n], s1[n]):
+                continue
+            if slot_template(n) in PSDREC_SLOTS and s1[n] is None and s[n] is not None:
+                psd_lost.append(n); continue
+            res.violate('%s-slot-not-reproduced-%s' % (mname, slot_template(n)),
+                        'after save -> load into a freshly constructed model slot %s differs from the original' % n, desc,
+                        observed=brief(s1[n]), required=brief(s[n]))
+        if psd_lost:
+            res.violate('psd-recording-not-saved', 'PSD recording was on: the recorded size-distribution history (%s; %d recorded steps) is not in the saved file, the reloaded model holds None'
+                        % (', '.join(psd_lost), len(s[psd_lost[0]])), desc, observed=None, required=brief(s[psd_lost[0]]))
+        if kind == 'P':
+            if int(fresh_model.pData.n) != int(model.pData.n):
+                res.violate('precipitation-slot-not-reproduced-pData.n', 'current step index differs after load', desc, int(fresh_model.pData.n), int(model.pData.n))
+            for ph in phases:       # public accessors of the current state
+                if not (same(model.PSD(ph), fresh_model.PSD(ph)) and same(model.particleRadius(ph), fresh_model.particleRadius(ph))):
+                    res.violate('precipitation-accessor-differs', 'PSD()/particleRadius() differ after load', desc)
+        else:
+            for el in model.allElements:
+                if not same(model.getX(el), fresh_model.getX(el)):
+                    res.violate('diffusion-accessor-differs', 'getX(%s) differs after load' % el, desc)
+    # queue the model comparison
+    lines.append('sl.rt %s %d %s %s %s' % (kind, len(phases), ' '.join(phases), enc_slots(s), enc_slots(s0)))
+    pending.append(dict(desc=desc, file_keys=file_keys, outcome=outcome, after=s1, names=names))
+    return outcome is None
+
+
+def compare_with_model(res, answers, pending):
+    for ans, p in zip(answers, pending):
+        r = parse_rt(ans)
+        if 'bad' in r:
+            res.disagree('save/load model error', p['desc'], 'ok', r['bad']); continue
+        if sorted(r['keys']) != p['file_keys']:
+            res.disagree('keys of the saved file', p['desc'], p['file_keys'], sorted(r['keys']))
+        impl_err = None if p['outcome'] is None else (p['outcome'] if p['outcome'][0] in ('objarray', 'keyerror') else ('other',))
+        if (r['err'] is None) != (impl_err is None) or (r['err'] is not None and tuple(r['err']) != tuple(impl_err)):
+            res.disagree('load outcome', p['desc'], p['outcome'], r['err']); continue
+        if r['err'] is None:
+            for n in p['names']:
+                if not same(r['slots'].get(n), p['after'][n]):
+                    res.disagree('slot %s after load' % n, p['desc'], brief(p['after'][n]), brief(r['slots'].get(n))); break
+
+
+def run_precip_case(res, ctx, tmp, cfg, lines, pending, resume=False):
+    vlib.use_repo()
+    from kawin.precipitation.coupling import StrengthModel
+    sm = None
+    ok_all = True
+    def check(point):
+        nonlocal ok_all
+        desc = dict(cfg, save_point=point, n=int(m.pData.n), t=float(m.pData.time[-1]),
+                    density=[float(v) for v in m.pData.precipitateDensity[-1]], bins_now=[int(p.bins) for p in m.PBM])
+        fresh = build_precip(cfg)
+        ok = roundtrip_check(res, ctx, tmp, 'P', m, fresh, desc, lines, pending, 'prec')
+        ok_all = ok_all and ok
+        nontrivial = bool(m.pData.n > 0 and any(np.any(p.PSD > 0) for p in m.PBM))
+        res.case(('P', cfg['system'], cfg['x0'] if not isinstance(cfg['x0'], tuple) else cfg['x0'][0], cfg['T'], cfg['record'], point), nontrivial)
+        res.count('precip:' + cfg['system']); res.count('precip-record:' + ('on' if cfg['record'] else 'off'))
+        res.count('precip-psd:' + ('populated' if nontrivial else 'empty'))
+        res.sample(dict(model='precipitation', **desc), cap=2)
+        # the dedicated recorded-PSD file (MONITORED): reproduces the recorded history
+        if cfg['record']:
+            base = os.path.join(tmp, 'psd_%d' % len(os.listdir(tmp)))
+            m.saveRecordedPSD(base)
+            for p, ph in enumerate(m.phases):
+                f2 = build_precip(cfg)
+                f2.PBM[p].loadRecordedPSD('%s_%s.npz' % (base, ph))
+                for a in ('_recordedTime', '_recordedBins', '_recordedPSD'):
+                    if not same(getattr(m.PBM[p], a), getattr(f2.PBM[p], a)):
+                        res.violate('recorded-psd-file-not-reproduced-' + a, 'saveRecordedPSD -> loadRecordedPSD changes %s of phase %s' % (a, ph), desc)
+            res.count('recorded-psd-file-roundtrip')
+        if sm is not None and sm.rss is not None:
+            f = os.path.join(tmp, 'strength_%d.npz' % len(os.listdir(tmp)))
+            sm.save(f)
+            sm2 = StrengthModel()
+            try:
+                sm2.load(f)
+                for a in ('rss', 'ls', 'solidStrength'):
+                    if not same(getattr(sm, a), getattr(sm2, a)):
+                        res.violate('strength-slot-not-reproduced-' + a, 'StrengthModel.save -> load changes ' + a, desc, brief(getattr(sm2, a)), brief(getattr(sm, a)))
+            except Exception as e:
+                res.violate('strength-load-raises-' + type(e).__name__, 'StrengthModel.load raised: %s' % e, desc)
+            res.count('strength-roundtrip')
+        return fresh
+
+    # saved mid-run between two solve calls, then after completion
+    m = build_precip(cfg)
+    if cfg.get('strength'):
+        sm = StrengthModel(); sm.setSolidSolutionStrength({'ZR': 2.0e8}, 1); m.addCouplingModel(sm)
+    cap = StepCap(m)
+    fresh = None
+    for i, n in enumerate(cfg['steps']):
+        cap.solve(3600.0 * 2, n, cfg['solver'])
+        fresh = check('between solve calls, after call %d' % (i + 1))
+    # after completion: a last solve call that runs to its end time
+    tnow = float(m.pData.time[-1])
+    cap.solve(max(0.25 * tnow, 1e-3), 400, cfg['solver'])
+    fresh = check('after completion of the last solve call')
+    if resume and ok_all:
+        resume_precip(res, cfg, m, fresh)
+
+
+def resume_precip(res, cfg, m, fresh):
+    """continuing after a reload: the next steps of the reloaded model must be those of the original"""
+    desc = dict(cfg, check='resume', n=int(m.pData.n))
+    n0 = int(m.pData.n)
+    StepCap(m).solve(3600.0, 5, cfg['solver'])
+    try:
+        StepCap(fresh).solve(3600.0, 5, cfg['solver'])
+    except Exception as e:
+        res.violate('resume-after-load-precipitation', 'solve() on the reloaded model raised %s: %s' % (type(e).__name__, str(e)[:100]), desc); return
+    res.count('resume-precipitation')
+    a, b = m.pData.time[n0:n0 + 6], fresh.pData.time[n0:n0 + 6]
+    psd_a, psd_b = m.PBM[0].PSD, fresh.PBM[0].PSD
+    if not (same(a, b) and same(psd_a, psd_b)):
+        res.violate('resume-after-load-precipitation',
+                    'continuing the run after load does not reproduce the next steps: setup() runs again on the reloaded model and PopulationBalanceModel.reset() zeroes the loaded size distribution',
+                    desc, observed=dict(time=np.asarray(b).tolist(), psd_sum=float(np.sum(psd_b))), required=dict(time=np.asarray(a).tolist(), psd_sum=float(np.sum(psd_a))))
+
+
+def run_diff_case(res, ctx, tmp, cfg, lines, pending, resume=False):
+    m = build_diff(cfg)
+    cap = StepCap(m)
+    dt = diff_dt_estimate(m, cfg)
+    ok_all, fresh = True, None
+    for i, n in enumerate(cfg['steps']):
+        if cfg['rec'] == 'switched-on' and i == len(cfg['steps']) - 1:
+            m.enableRecording()
+        cap.solve(dt * n * 1.0001, n + 2, cfg['solver'])
+        if cfg['rec'] == 'switched-off' and i == 0:
+            m.disableRecording()
+        if cfg['rec'] == 'removed' and i == len(cfg['steps']) - 1:
+            m.removeRecordedData()
+        point = 'after solve call %d of %d' % (i + 1, len(cfg['steps']))
+        desc = dict(cfg, save_point=point, t=float(m.t), steps=cap.count,
+                    recorded=None if m._recordedX is None else list(np.shape(m._recordedX)))
+        fresh = build_diff(cfg)
+        ok = roundtrip_check(res, ctx, tmp, 'D', m, fresh, desc, lines, pending, 'diff')
+        ok_all = ok_all and ok
+        res.case(('D', cfg['kind'], cfg['E'], cfg['N'], cfg['rec'], cfg['tseed'], i), bool(cap.count > 0 and np.ptp(m.x) > 0))
+        res.count('diffusion-recording:' + cfg['rec']); res.count('diffusion-model:' + cfg['kind'])
+        res.sample(dict(model='diffusion', **desc), cap=3)
+    if resume and ok_all and cfg['rec'] != 'removed':
+        desc = dict(cfg, check='resume', t=float(m.t))
+        n = 4
+        StepCap(m).solve(dt * n * 1.0001, n + 2, cfg['solver'])
+        try:
+            StepCap(fresh).solve(dt * n * 1.0001, n + 2, cfg['solver'])
+        except Exception as e:
+            res.violate('resume-after-load-diffusion', 'solve() on the reloaded model raised %s: %s' % (type(e).__name__, str(e)[:100]), desc); return
+        res.count('resume-diffusion')
+        if not (same(m.x, fresh.x) and same(m.t, fresh.t)):
+            res.violate('resume-after-load-diffusion',
+                        'continuing the run after load does not reproduce the next steps: setup() runs again on the reloaded model (isSetup is False) and rebuilds the INITIAL composition profile over the loaded one',
+                        desc, observed=dict(t=float(fresh.t), x_head=np.ravel(fresh.x)[:3].tolist()), required=dict(t=float(m.t), x_head=np.ravel(m.x)[:3].tolist()))
+
+
+# ============================================================================ surrogates
+class Spy:
+    """forwards everything to the real thermodynamics and records the method calls and their results"""
+    def __init__(self, th):
+        object.__setattr__(self, '_th', th)
+        object.__setattr__(self, 'calls', [])
+
+    def __getattr__(self, name):
+        v = getattr(self._th, name)
+        if callable(v) and not name.startswith('_'):
+            def f(*a, **k):
+                r = v(*a, **k)
+                self.calls.append((name, r))
+                return r
+            return f
+        return v
+
+
+def deep_same(a, b):
+    if a is None or b is None:
+        return a is None and b is None
+    if isinstance(a, (tuple, list)) and not isinstance(a, np.ndarray):
+        return isinstance(b, (tuple, list)) and len(a) == len(b) and all(deep_same(x, y) for x, y in zip(a, b))
+    if hasattr(a, '__dict__') and not isinstance(a, np.ndarray):
+        return type(a) is type(b) and all(deep_same(getattr(a, k), getattr(b, k)) for k in vars(a))
+    return same(a, b)
+
+
+def deep_close(a, b, rtol):
+    if a is None or b is None:
+        return a is None and b is None
+    if isinstance(a, (tuple, list)) and not isinstance(a, np.ndarray):
+        return len(a) == len(b) and all(deep_close(x, y, rtol) for x, y in zip(a, b))
+    if hasattr(a, '__dict__') and not isinstance(a, np.ndarray):
+        return all(deep_close(getattr(a, k), getattr(b, k), rtol) for k in vars(a))
+    a = np.asarray(a, dtype=float); b = np.asarray(b, dtype=float)
+    if a.shape != b.shape:
+        return False
+    sc = float(np.max(np.abs(b))) if b.size else 0.0
+    return bool(np.all(np.abs(a - b) <= rtol * np.maximum(np.abs(b), sc * 1e-6) + 1e-300))
+
+
+def untrained_calls(kind, rng):
+    """(getter, positional args, kwargs for the direct thermodynamics call of the SAME quantity)"""
+    if kind == 'binary':
+        x = np.array(sorted(round(10 ** rng.uniform(-3.3, -2.1), 6) for _ in range(3)))
+        T = np.array([round(rng.uniform(650, 800), 1) for _ in range(3)])
+        g = np.array([0.0, round(rng.uniform(100, 3000), 1), round(rng.uniform(100, 3000), 1)])
+        return {'getDrivingForce': ((x, T), dict(removeCache=True)),
+                'getInterdiffusivity': ((x, T), {}), 'getTracerDiffusivity': ((x, T), {}),
+                'getInterfacialComposition': ((T, g), {})}
+    x = np.array([[round(0.098 * rng.uniform(0.95, 1.05), 5), round(0.083 * rng.uniform(0.95, 1.05), 5)] for _ in range(2)])
+    T = np.array([round(rng.uniform(1050, 1100), 1) for _ in range(2)])
+    R = np.array([1e-9, 3e-9]); gE = np.array([2000.0, 700.0])
+    return {'getDrivingForce': ((x, T), dict(removeCache=True)),
+            'getInterdiffusivity': ((x, T), {}), 'getTracerDiffusivity': ((x, T), {}),
+            'curvatureFactor': ((x[0], float(T[0])), dict(removeCache=True)),
+            'getGrowthAndInterfacialComposition': ((x[0], float(T[0]), 500.0, R, gE), dict(removeCache=True)),
+            'impingementFactor': ((x[0], float(T[0])), dict(removeCache=True))}
+
+
+def check_untrained(res, kind, cls, th, rng):
+    cname = cls.__name__
+    calls = untrained_calls(kind, rng)
+    for g in surrogate_getters(cls):
+        if g not in calls:
+            res.count('untrained-getter-without-oracle-arguments:' + g); continue
+        args, kw = calls[g]
+        desc = dict(surrogate=cname, getter=g, args=[np.asarray(a).tolist() for a in args], kwargs=kw, trained=False)
+        spy = Spy(th)
+        s = cls(spy)
+        with warnings.catch_warnings():
+            warnings.simplefilter('ignore')
+            try:
+                out = getattr(s, g)(*args, **kw)
+                ref = getattr(th, g)(*args, **kw)          # the thermodynamics call of the same quantity
+            except Exception as e:
+                res.violate('untrained-%s.%s-raises-%s' % (cname, g, type(e).__name__), 'untrained getter raised: %s' % str(e)[:120], desc); continue
+        res.case(('untrained', cname, g, repr(desc['args'])[:60]), True)
+        res.count('untrained:%s.%s' % (cname, g))
+        called = [c[0] for c in spy.calls]
+        if called != [g]:
+            res.violate('untrained-%s.%s-calls-%s' % (cname, g, '+'.join(called) or 'nothing'),
+                        'the untrained branch of %s.%s calls thermodynamics.%s, not thermodynamics.%s' % (cname, g, '/'.join(called), g), desc,
+                        observed=dict(called=called, shape=list(np.shape(out)) if not isinstance(out, tuple) else None),
+                        required=dict(called=[g], shape=list(np.shape(ref)) if not isinstance(ref, tuple) else None))
+            continue
+        if not (out is spy.calls[0][1]):
+            res.violate('untrained-%s.%s-does-not-return-the-thermodynamics-result' % (cname, g), 'result is not the object the thermodynamics call returned', desc)
+        res.count('untrained-vs-direct-call:' + ('bit-identical' if deep_same(out, ref) else 'within-1e-9'))
+        if not deep_close(out, ref, 1e-9):      # a second pycalphad evaluation is only reproducible to ~1e-12
+            res.violate('untrained-%s.%s-differs-from-thermodynamics' % (cname, g), 'untrained getter and thermodynamics.%s give different values' % g, desc,
+                        observed=brief(out) if not isinstance(out, tuple) else [brief(o) for o in out],
+                        required=brief(ref) if not isinstance(ref, tuple) else [brief(o) for o in ref])
+
+
+def _guard(res, key, what, desc, fn):
+    """run fn; an exception is a violation `key-raises-<Exc>`; returns (ok, value)"""
+    with warnings.catch_warnings():
+        warnings.simplefilter('ignore')
+        try:
+            return True, fn()
+        except Exception as e:
+            res.violate('%s-raises-%s' % (key, type(e).__name__), '%s raised %s: %s' % (what, type(e).__name__, str(e)[:140]), desc,
+                        observed=type(e).__name__, required='no exception')
+            return False, None
+
+
+def json_dict_check(res, s, s2, desc, jlines, jpending):
+    """fromJson(toJson d) = d on every data dictionary, entry by entry (oracle) + queue arrays for the Lean model"""
+    a = s._collectSurrogateData(); b = s2._collectSurrogateData()
+    for q in a:
+        for ph in a[q]:
+            if ph not in b.get(q, {}):
+                res.violate('json-roundtrip-missing-%s' % q, 'quantity %s / phase %s missing after fromJson' % (q, ph), desc); continue
+            for k, v in a[q][ph].items():
+                w = b[q][ph].get(k)
+                if isinstance(v, (bool, np.bool_)):
+                    ok = isinstance(w, bool) and bool(v) == w
+                else:
+                    try:
+                        va = np.array(v, dtype=float); wa = np.array(w, dtype=float)
+                        ok = same(va, wa)
+                        if va.ndim <= 4 and va.size and jlines is not None and len(jlines) < 400:
+                            jlines.append('json.rt %d %s %s' % (va.ndim, ' '.join(map(str, va.shape)), enc_list(va.ravel())))
+                            jpending.append((dict(desc, quantity=q, phase=ph, key=k), va, w))
+                    except (TypeError, ValueError):
+                        ok = False
+                res.count('json-entry')
+                if not ok:
+                    res.violate('json-roundtrip-entry-%s.%s' % (q, k), 'data dictionary entry %s/%s/%s differs after toJson -> fromJson' % (q, ph, k), desc,
+                                observed=brief(w) if not isinstance(w, bool) else w, required=brief(v) if not isinstance(v, (bool, np.bool_)) else bool(v))
+
+
+def check_trained_binary(res, th, rng, tmp, jlines, jpending):
+    vlib.use_repo()
+    from kawin.thermo import BinarySurrogate
+    cname = 'BinarySurrogate'
+    logX = rng.random() < 0.5; logY = rng.random() < 0.5
+    bc = rng.random() < 0.6
+    kernel = rng.choice([{'kernel': 'cubic', 'normalize': True}, {'kernel': 'cubic', 'normalize': True}, {'kernel': 'linear', 'normalize': False}])
+    nx = rng.randint(3, 4)
+    xs = np.logspace(rng.uniform(-3.4, -3.1), rng.uniform(-2.3, -2.0), nx) if logX else np.linspace(10 ** rng.uniform(-3.3, -3.0), 10 ** rng.uniform(-2.3, -2.0), nx)
+    Ts = np.array([round(rng.uniform(660, 700), 1), round(rng.uniform(740, 790), 1)])
+    gs = np.linspace(rng.uniform(50, 200), rng.uniform(2000, 4000), rng.randint(3, 4))
+    if bc:
+        xa, Ta = xs, Ts
+        Tg, gg = Ts, gs
+    else:                              # broadcast=False: explicit point lists of equal length
+        xa = np.tile(xs, 2); Ta = np.repeat(Ts, len(xs))
+        Tg = np.repeat(Ts, len(gs)); gg = np.tile(gs, 2)
+    desc = dict(surrogate=cname, logX=logX, logY=logY, broadcast=bc, kernel=kernel, x=xs.tolist(), T=Ts.tolist(), gExtra=gs.tolist(), trained=True)
+    s = BinarySurrogate(th, kernelKwargs=dict(kernel))
+    res.count('trained-binary:broadcast=%s' % bc)
+    phP, phM = th.phases[1], th.phases[0]
+    # ---- driving force
+    ok, _ = _guard(res, 'train-%s.trainDrivingForce' % cname, 'trainDrivingForce(x grid, T grid, logX=%s, broadcast=%s)' % (logX, bc), desc,
+                   lambda: s.trainDrivingForce(xa, Ta, logX=logX, broadcast=bc))
+    if ok:
+        d = s.drivingForceData[phP]
+        xq, Tq = np.asarray(d['x'])[:, 0], np.asarray(d['T'])
+        ok2, out = _guard(res, 'trained-%s.getDrivingForce' % cname, 'getDrivingForce at the training points', desc, lambda: s.getDrivingForce(xq, Tq))
+        if ok2 and not deep_close(out, (d['dg'], d['xp']), 1e-6):
+            res.violate('trained-%s.getDrivingForce-training-points' % cname, 'trained driving-force surrogate does not reproduce its training data', desc,
+                        observed=[brief(o) for o in out], required=[brief(d['dg']), brief(d['xp'])])
+        _guard(res, 'trained-%s.getDrivingForce-scalar' % cname, 'getDrivingForce(scalar x, scalar T)', desc, lambda: s.getDrivingForce(float(xq[0]), float(Tq[0])))
+        res.case(('trained', cname, 'drivingForce', logX, bc, float(xs[0])), True)
+    # ---- interfacial composition
+    ok, _ = _guard(res, 'train-%s.trainInterfacialComposition%s' % (cname, '-grid' if bc else '-points'),
+                   'trainInterfacialComposition(T %s, gExtra %s, broadcast=%s)' % (np.shape(Tg), np.shape(gg), bc), desc,
+                   lambda: s.trainInterfacialComposition(Tg, gg, logY=logY, broadcast=bc))
+    if ok:
+        d = s.interfacialCompositionData[phP]
+        Tq, gq = np.ravel(d['T']), np.ravel(d['gExtra'])
+        ok2, out = _guard(res, 'trained-%s.getInterfacialComposition' % cname, 'getInterfacialComposition at the training points', desc,
+                          lambda: s.getInterfacialComposition(Tq, gq))
+        if ok2 and not deep_close(out, (d['xpalpha'], d['xpbeta']), 1e-6):
+            res.violate('trained-%s.getInterfacialComposition-training-points' % cname, 'trained interfacial-composition surrogate does not reproduce its training data', desc,
+                        observed=[brief(o) for o in out], required=[brief(d['xpalpha']), brief(d['xpbeta'])])
+        res.case(('trained', cname, 'interfacialComposition', logY, bc, float(gs[0])), True)
+    # ---- diffusivity
+    ok, _ = _guard(res, 'train-%s.trainDiffusivity' % cname, 'trainDiffusivity', desc, lambda: s.trainDiffusivity(xa, Ta, logX=logX, broadcast=bc))
+    if ok:
+        d = s.diffusivityData[phM]
+        xq, Tq = np.asarray(d['x'])[:, 0], np.asarray(d['T'])
+        ok2, out = _guard(res, 'trained-%s.getInterdiffusivity' % cname, 'getInterdiffusivity at the training points', desc, lambda: s.getInterdiffusivity(xq, Tq))
+        if ok2 and not deep_close(out, d['dnkj'], 1e-6):
+            res.violate('trained-%s.getInterdiffusivity-training-points' % cname, 'trained interdiffusivity does not reproduce its training data', desc, brief(out), brief(d['dnkj']))
+        ok2, out = _guard(res, 'trained-%s.getTracerDiffusivity' % cname, 'getTracerDiffusivity(x of shape (N,), T) at the training points (documented input form)', desc,
+                          lambda: s.getTracerDiffusivity(xq, Tq))
+        if ok2 and not deep_close(out, d['dtracer'], 1e-6):
+            res.violate('trained-%s.getTracerDiffusivity-training-points' % cname, 'trained tracer diffusivity does not reproduce its training data', desc, brief(out), brief(d['dtracer']))
+        res.case(('trained', cname, 'diffusivity', logX, bc, float(xs[0])), True)
+    # ---- rebuilt from its file
+    f = os.path.join(tmp, 'surr_b_%d' % len(os.listdir(tmp)))
+    ok, _ = _guard(res, 'save-%s.toJson' % cname, 'toJson', desc, lambda: s.toJson(f))
+    if not ok:
+        return
+    s2 = BinarySurrogate(th, kernelKwargs=dict(kernel))
+    ok, _ = _guard(res, 'reload-%s.fromJson' % cname, 'fromJson of the file written by toJson', desc, lambda: s2.fromJson(f))
+    if not ok:
+        return
+    json_dict_check(res, s, s2, desc, jlines, jpending)
+    xq = np.array([10 ** rng.uniform(-3.0, -2.3) for _ in range(3)]); Tq = np.array([rng.uniform(700, 740) for _ in range(3)])
+    gq = np.array([rng.uniform(300, 1800) for _ in range(3)])
+    for name, fn in [('getDrivingForce', lambda z: z.getDrivingForce(xq, Tq)), ('getInterfacialComposition', lambda z: z.getInterfacialComposition(Tq, gq)),
+                     ('getInterdiffusivity', lambda z: z.getInterdiffusivity(xq, Tq)), ('getTracerDiffusivity', lambda z: z.getTracerDiffusivity(xq.reshape(-1, 1), Tq))]:
+        with warnings.catch_warnings():
+            warnings.simplefilter('ignore')
+            try:
+                a, b = fn(s), fn(s2)
+            except Exception as e:
+                res.count('reload-query-raised:' + name); continue
+        res.count('reload-prediction:' + ('bit-identical' if deep_same(a, b) else 'within-1e-9'))
+        if not deep_close(a, b, 1e-9):
+            res.violate('reload-%s.%s-predictions-differ' % (cname, name), 'surrogate rebuilt from its JSON file predicts differently', dict(desc, x=xq.tolist(), T=Tq.tolist(), g=gq.tolist()),
+                        observed=brief(b) if not isinstance(b, tuple) else [brief(o) for o in b], required=brief(a) if not isinstance(a, tuple) else [brief(o) for o in a])
+    res.case(('reload', cname, logX, logY, bc), True)
+
+
+def check_trained_multi(res, th, rng, tmp, jlines, jpending):
+    vlib.use_repo()
+    from kawin.thermo import MulticomponentSurrogate
+    from kawin.thermo.Surrogate import generateTrainingPoints
+    cname = 'MulticomponentSurrogate'
+    logX = rng.random() < 0.4
+    bc = rng.random() < 0.6
+    a0 = 0.098 * rng.uniform(0.97, 1.0); c0 = 0.083 * rng.uniform(0.97, 1.0)
+    pts = generateTrainingPoints([round(a0, 5), round(a0 * 1.08, 5)], [round(c0, 5), round(c0 * 1.1, 5)])
+    Ts = np.array([round(rng.uniform(1050, 1070), 1), round(rng.uniform(1090, 1110), 1)])
+    if bc:
+        xa, Ta = pts, Ts
+    else:
+        xa = np.tile(pts, (2, 1)); Ta = np.repeat(Ts, len(pts))
+    desc = dict(surrogate=cname, logX=logX, broadcast=bc, x=pts.tolist(), T=Ts.tolist(), trained=True)
+    s = MulticomponentSurrogate(th)
+    res.count('trained-multi:broadcast=%s' % bc)
+    phP, phM = th.phases[1], th.phases[0]
+    ok, _ = _guard(res, 'train-%s.trainDrivingForce' % cname, 'trainDrivingForce', desc, lambda: s.trainDrivingForce(xa, Ta, logX=logX, broadcast=bc))
+    if ok:
+        d = s.drivingForceData[phP]
+        ok2, out = _guard(res, 'trained-%s.getDrivingForce' % cname, 'getDrivingForce at the training points', desc, lambda: s.getDrivingForce(np.asarray(d['x']), np.asarray(d['T'])))
+        if ok2 and not deep_close(out, (d['dg'], d['xp']), 1e-6):
+            res.violate('trained-%s.getDrivingForce-training-points' % cname, 'trained driving-force surrogate does not reproduce its training data', desc,
+                        observed=[brief(o) for o in out], required=[brief(d['dg']), brief(d['xp'])])
+        res.case(('trained', cname, 'drivingForce', logX, bc, float(pts[0][0])), True)
+    ok, _ = _guard(res, 'train-%s.trainCurvature' % cname, 'trainCurvature', desc, lambda: s.trainCurvature(xa, Ta, logX=logX, broadcast=bc))
+    if ok and len(s.curvatureData[phP]['x']) > 1:
+        d = s.curvatureData[phP]
+        i = rng.randrange(len(d['x']))
+        ok2, c = _guard(res, 'trained-%s.curvatureFactor' % cname, 'curvatureFactor at a training point', desc, lambda: s.curvatureFactor(np.asarray(d['x'][i]), d['T'][i]))
+        if ok2:
+            want = dict(dc=d['dc'][i], mc=d['mc'][i], gba=d['gba'][i], beta=d['beta'][i], c_eq_alpha=d['xEqAlpha'][i], c_eq_beta=d['xEqBeta'][i])
+            bad = [k for k, v in want.items() if not deep_close(getattr(c, k), v, 1e-6)]
+            if bad:
+                res.violate('trained-%s.curvatureFactor-training-points' % cname, 'trained curvature surrogate does not reproduce %s at training point %d' % (bad, i), desc,
+                            observed={k: brief(getattr(c, k)) for k in bad}, required={k: brief(want[k]) for k in bad})
+            ok3, b = _guard(res, 'trained-%s.impingementFactor' % cname, 'impingementFactor at a training point', desc, lambda: s.impingementFactor(np.asarray(d['x'][i]), d['T'][i]))
+            if ok3 and not deep_close(b, d['beta'][i], 1e-6):
+                res.violate('trained-%s.impingementFactor-training-points' % cname, 'impingementFactor differs from the trained beta', desc, brief(b), brief(d['beta'][i]))
+        res.case(('trained', cname, 'curvature', logX, bc, float(pts[0][0])), True)
+    ok, _ = _guard(res, 'train-%s.trainDiffusivity' % cname, 'trainDiffusivity', desc, lambda: s.trainDiffusivity(xa, Ta, logX=logX, broadcast=bc))
+    if ok:
+        d = s.diffusivityData[phM]
+        X, TT = np.asarray(d['x']), np.asarray(d['T'])
+        ok2, out = _guard(res, 'trained-%s.getInterdiffusivity' % cname, 'getInterdiffusivity at the training points', desc, lambda: s.getInterdiffusivity(X, TT))
+        if ok2 and not deep_close(out, d['dnkj'], 1e-6):
+            res.violate('trained-%s.getInterdiffusivity-training-points' % cname, 'trained interdiffusivity does not reproduce its training data', desc, brief(out), brief(d['dnkj']))
+        ok2, out = _guard(res, 'trained-%s.getTracerDiffusivity' % cname, 'getTracerDiffusivity at the training points', desc, lambda: s.getTracerDiffusivity(X, TT))
+        if ok2 and not deep_close(out, d['dtracer'], 1e-6):
+            res.violate('trained-%s.getTracerDiffusivity-training-points' % cname, 'trained tracer diffusivity does not reproduce its training data', desc, brief(out), brief(d['dtracer']))
+        ok2, out = _guard(res, 'trained-%s.getInterdiffusivity-single-point' % cname, 'getInterdiffusivity(x of shape (e,), scalar T) (documented input form)', desc,
+                          lambda: s.getInterdiffusivity(X[0], float(TT[0])))
+        if ok2 and not deep_close(out, np.asarray(d['dnkj'])[0], 1e-6):
+            res.violate('trained-%s.getInterdiffusivity-training-points' % cname, 'single-point interdiffusivity differs from the training datum', desc, brief(out), brief(np.asarray(d['dnkj'])[0]))
+        ok2, out = _guard(res, 'trained-%s.getTracerDiffusivity-single-point' % cname, 'getTracerDiffusivity(x of shape (e,), scalar T) (documented input form)', desc,
+                          lambda: s.getTracerDiffusivity(X[0], float(TT[0])))
+        if ok2 and not deep_close(out, np.asarray(d['dtracer'])[0], 1e-6):
+            res.violate('trained-%s.getTracerDiffusivity-training-points' % cname, 'single-point tracer diffusivity differs from the training datum', desc, brief(out), brief(np.asarray(d['dtracer'])[0]))
+        res.case(('trained', cname, 'diffusivity', logX, bc, float(pts[0][0])), True)
+    f = os.path.join(tmp, 'surr_m_%d' % len(os.listdir(tmp)))
+    ok, _ = _guard(res, 'save-%s.toJson' % cname, 'toJson', desc, lambda: s.toJson(f))
+    if not ok:
+        return
+    s2 = MulticomponentSurrogate(th)
+    ok, _ = _guard(res, 'reload-%s.fromJson' % cname, 'fromJson of the file written by toJson (driving force + curvature + diffusivity trained)', desc, lambda: s2.fromJson(f))
+    if not ok:
+        return
+    json_dict_check(res, s, s2, desc, jlines, jpending)
+    xq = np.array([round(a0 * 1.03, 5), round(c0 * 1.04, 5)]); Tq = float(rng.uniform(1072, 1088))
+    for name, fn in [('getDrivingForce', lambda z: z.getDrivingForce(xq, Tq)), ('curvatureFactor', lambda z: z.curvatureFactor(xq, Tq)),
+                     ('impingementFactor', lambda z: z.impingementFactor(xq, Tq)),
+                     ('getGrowthAndInterfacialComposition', lambda z: tuple(z.getGrowthAndInterfacialComposition(xq, Tq, 500.0, np.array([1e-9, 2e-9]), np.array([1500.0, 800.0])))),
+                     ('getInterdiffusivity', lambda z: z.getInterdiffusivity(xq.reshape(1, -1), Tq)), ('getTracerDiffusivity', lambda z: z.getTracerDiffusivity(xq.reshape(1, -1), Tq))]:
+        with warnings.catch_warnings():
+            warnings.simplefilter('ignore')
+            try:
+                a, b = fn(s), fn(s2)
+            except Exception as e:
+                res.count('reload-query-raised:' + name); continue
+        res.count('reload-prediction:' + ('bit-identical' if deep_same(a, b) else 'within-1e-9'))
+        if not deep_close(a, b, 1e-9):
+            res.violate('reload-%s.%s-predictions-differ' % (cname, name), 'surrogate rebuilt from its JSON file predicts differently', dict(desc, xq=xq.tolist(), Tq=Tq))
+    res.case(('reload', cname, logX, bc), True)
+
+
+def json_cases(rng, n):
+    """random arrays of rank 0..3 for the ndarray -> JSON -> ndarray correspondence"""
+    out = []
+    for _ in range(n):
+        nd = rng.choice([0, 1, 1, 2, 2, 3])
+        shape = tuple(rng.randint(1, 5) for _ in range(nd))
+        size = int(np.prod(shape)) if nd else 1
+        vals = []
+        for _ in range(size):
+            k = rng.random()
+            vals.append(0.0 if k < 0.05 else -0.0 if k < 0.08 else 5e-324 if k < 0.1 else float('inf') if k < 0.12 else
+                        rng.choice([-1, 1]) * 10 ** rng.uniform(-300, 300) if k < 0.4 else rng.uniform(-1, 1))
+        out.append(np.array(vals, dtype=float).reshape(shape))
+    return out
+
+
+def json_model_compare(res, ctx, rng, jlines, jpending, nrand):
+    vlib.use_repo()
+    from kawin.thermo.Surrogate import NumpyEncoder
+    for a in json_cases(rng, nrand):
+        back = json.loads(json.dumps({'v': a}, cls=NumpyEncoder))['v']
+        jlines.append('json.rt %d %s %s' % (a.ndim, ' '.join(map(str, a.shape)), enc_list(a.ravel())))
+        jpending.append((dict(kind='random array', shape=list(a.shape)), a, back))
+        if not same(np.array(back, dtype=float), a):
+            res.violate('json-roundtrip-array', 'json.dumps(NumpyEncoder) -> json.loads -> np.array changes an array', dict(shape=list(a.shape), head=np.ravel(a)[:3].tolist()))
+    if not (ctx.driver_ok and jlines):
+        return
+    answers = vlib.run_driver(PROP, jlines)
+    for ans, (desc, a, back) in zip(answers, jpending):
+        t = Toks(ans)
+        if not t.ok:
+            res.disagree('json model error', desc, 'ok', t.err); continue
+        shape = [t.nat() for _ in range(t.nat())]
+        data = t.flts()
+        nest = ' '.join(t.rest())
+        arr = np.array(back, dtype=float)
+        res.count('json-model-compared')
+        if shape != list(arr.shape) or not same(np.array(data, dtype=float).reshape(arr.shape if shape == list(arr.shape) else -1), arr):
+            res.disagree('np.array(tolist) shape/data', desc, dict(shape=list(arr.shape)), dict(shape=shape))
+        elif nest != show_nest(back if isinstance(back, list) else float(back)):
+            res.disagree('nested list structure', desc, show_nest(back)[:200], nest[:200])
+
+
+# ============================================================================ corr / search / replay
+def corr(ctx, scale=1, oracle_only=False, only=None):
+    import kwnruns
+    res = Result()
+    res.monitored = list(MONITORED)
+    res.rule = ('real Al-Zr KWN runs (random x0, T, class count, adaptive on/off, Euler/RK4, PSD recording on/off; thorough: + Ni-Cr-Al, 5-precipitate Al-Mg-Si) saved between solve calls and after completion; '
+                'random SinglePhaseModel runs (1-3 solutes, 5-40 nodes, 1-3 solve calls, recording on/off/switched off/switched on/removed; thorough: + real Ni-Cr(-Al) thermodynamics, HomogenizationModel); '
+                'untrained getters on random points of the real Al-Zr / Ni-Cr-Al thermodynamics; tiny trained surrogates (linear/log, broadcast or point lists); random arrays through JSON. '
+                'non-trivial = populated size distribution / evolved profile / a getter evaluated; distinct = configuration + save point')
+    rng = ctx.rng
+    tmp = tempfile.mkdtemp(prefix='kawin_C20_', dir='/tmp')
+    lines, pending, jlines, jpending = [], [], [], []
+    try:
+        with warnings.catch_warnings():
+            warnings.simplefilter('ignore')
+            np.seterr(all='ignore')
+            # ---------------- diffusion
+            if only in (None, 'diffusion'):
+                ncases = ctx.n(30, 150) * scale
+                cfgs = [gen_diff_cfg(rng) for _ in range(ncases)]
+                for i, rec in enumerate(['off', 'on', 'removed', 'switched-off', 'switched-on']):      # every option in every run
+                    cfgs[i]['rec'] = rec
+                for cfg in cfgs:
+                    run_diff_case(res, ctx, tmp, cfg, lines, pending, resume=ctx.thorough)
+                if ctx.thorough:
+                    for kind, els, N, steps in [('real-single', ['NI', 'CR'], 12, [6, 5]), ('real-single', ['NI', 'CR', 'AL'], 10, [5]),
+                                                ('real-homog', ['NI', 'CR'], 10, [4, 4])]:
+                        for rec in ('on', 'off'):
+                            E = len(els) - 1
+                            cfg = dict(kind=kind, E=E, N=N, L=2e-3, els=els, rec=rec, tseed=0, D0=0.0, steps=steps,
+                                       prof=[[0.08 + 0.02 * e, 0.3 - 0.1 * e, 'linear'] for e in range(E)], solver='euler', T=1473.15, dt_est=None)
+                            m0 = build_diff(cfg)
+                            with _quiet():
+                                m0.setup()
+                                m0._getFluxes(0, [m0.x])
+                            cfg['dt_est'] = float(m0._currdt)
+                            run_diff_case(res, ctx, tmp, cfg, lines, pending, resume=False)
+            # ---------------- precipitation
+            if only in (None, 'precipitation'):
+                cfgs = [gen_precip_cfg(rng) for _ in range(ctx.n(3, 8) * scale)]
+                cfgs[0]['record'] = True; cfgs[0]['adaptive'] = True
+                cfgs[1]['record'] = False
+                if ctx.thorough:
+                    cfgs += [gen_precip_cfg(rng, 'NiCrAl') for _ in range(2)] + [gen_precip_cfg(rng, 'AlMgSi')]
+                    cfgs[-3]['record'] = True
+                for i, cfg in enumerate(cfgs):
+                    run_precip_case(res, ctx, tmp, cfg, lines, pending, resume=ctx.thorough and i < 3)
+            # ---------------- model comparison for the save/load cases
+            if ctx.driver_ok and not oracle_only and lines:
+                compare_with_model(res, vlib.run_driver(PROP, lines), pending)
+                res.traces = len(lines)
+            # ---------------- surrogates
+            if only in (None, 'surrogate'):
+                from kawin.thermo import BinarySurrogate, MulticomponentSurrogate
+                thb = kwnruns.therm_binary(); tht = kwnruns.therm_ternary()
+                for _ in range(ctx.n(2, 5) * scale):
+                    check_untrained(res, 'binary', BinarySurrogate, thb, rng)
+                    check_untrained(res, 'multi', MulticomponentSurrogate, tht, rng)
+                for _ in range(ctx.n(3, 10) * scale):
+                    check_trained_binary(res, thb, rng, tmp, jlines, jpending)
+                for _ in range(ctx.n(2, 5) * scale):
+                    check_trained_multi(res, tht, rng, tmp, jlines, jpending)
+                json_model_compare(res, ctx if not oracle_only else _NoDriver(ctx), rng, jlines, jpending, ctx.n(150, 1500))
+    finally:
+        shutil.rmtree(tmp, ignore_errors=True)
+    res.extra['tables'] = {'precip_keys_per_phase': [e[0] for e in tables()['phW']], 'diffusion_lines': tables()['dw']}
+    return res
+
+
+class _NoDriver:
+    def __init__(self, ctx):
+        self.driver_ok = False
+        self.rng = ctx.rng
+
+
+def search(ctx, broken):
+    """a proof / the tables / the correspondence no longer check: larger oracle-only sample on the implementation"""
+    return corr(ctx, scale=2, oracle_only=True)
+
+
+def replay(ctx, entry):
+    v = entry['violation']
+    case = v['case']
+    res = Result()
+    tmp = tempfile.mkdtemp(prefix='kawin_C20_', dir='/tmp')
+    ctx.driver_ok = False
+    try:
+        with warnings.catch_warnings():
+            warnings.simplefilter('ignore')
+            np.seterr(all='ignore')
+            if 'system' in case:
+                cfg = {k: case[k] for k in ('system', 'x0', 'T', 'gamma', 'bins', 'minBins', 'maxBins', 'adaptive', 'record', 'steps', 'solver', 'strength')}
+                if isinstance(cfg['x0'], list):
+                    cfg['x0'] = tuple(cfg['x0'])
+                run_precip_case(res, ctx, tmp, cfg, [], [], resume=case.get('check') == 'resume')
+            elif 'rec' in case:
+                cfg = {k: case[k] for k in ('kind', 'E', 'N', 'L', 'els', 'rec', 'tseed', 'D0', 'steps', 'prof', 'solver', 'T') if k in case}
+                if 'dt_est' in case:
+                    cfg['dt_est'] = case['dt_est']
+                run_diff_case(res, ctx, tmp, cfg, [], [], resume=case.get('check') == 'resume')
+            else:
+                res = corr(ctx, oracle_only=True, only='surrogate')
+    finally:
+        shutil.rmtree(tmp, ignore_errors=True)
+    hit = [x for x in res.violations if x['key'] == v['key']]
+    for x in hit[:3]:
+        print('  ', x['key'], x['what'], x['observed'], x['required'])
+    return not hit
